@@ -42,7 +42,7 @@ M = [
      "    hemisphere, zone20, east20, north20, psf, gridconv = geo2grid(lat, lon)\n    return zone20, east20, north20, round(ell_ht_out, 4), vcv20", BREAK),
     ('c13-reverse-vcv-unnegated', 'C13', 'geodepy/transform.py', "    x20, y20, z20, vcv94 = conform7(x94, y94, z94, -gda94_to_gda2020, vcv=vcv)", "    x20, y20, z20, _ = conform7(x94, y94, z94, -gda94_to_gda2020)\n    vcv94 = conform7(x94, y94, z94, gda94_to_gda2020, vcv=vcv)[3]", BREAK),   # covariance carried through the forward instead of the reverse set: differs at 4e-7 relative, reported with failing inputs
     # ---- C09
-    ('c09-module-cache', 'C09', 'geodepy/convert.py', "def rect_radius(ellipsoid):\n", "_RR_CACHE = {}\n\n\ndef rect_radius(ellipsoid):\n    _RR_CACHE[id(ellipsoid)] = ellipsoid.inversef\n", BREAK),
+    ('c09-module-cache', 'C09', 'geodepy/convert.py', "def rect_radius(ellipsoid):\n", "_RR_CACHE = {}\n\n\ndef rect_radius(ellipsoid):\n    _RR_CACHE[id(ellipsoid)] = ellipsoid.inversef\n", QUIET),   # a write-only table: no result depends on it, no constant or argument is touched (the property as stated holds)
     ('c09-vcv-in-place', 'C09', 'geodepy/statistics.py', "    rot_matrix = rotation_matrix(lat, lon)\n    vcv_local = rot_matrix.transpose() @ vcv_cart @ rot_matrix\n", "    rot_matrix = rotation_matrix(lat, lon)\n    vcv_local = rot_matrix.transpose() @ vcv_cart @ rot_matrix\n    if not column_vector:\n        vcv_cart[:] = vcv_cart\n", BREAK),
     # ---- C10
     ('c10-cmscale-from-utm', 'C10', 'geodepy/convert.py', "    psf = (float(prj.cmscale)\n", "    psf = (float(utm.cmscale)\n", BREAK),
